@@ -145,6 +145,7 @@ def check_operator_actions(ctx, g, d):
             it = Interp.for_file(ctx.src, g.file, isa, {}, also=ast_files)
             label = f'{d}:[{p}]:operands={"/".join(v)}'
             n += 1
+            before = [o.clone() for o in operands]
             try:
                 res = it.call_function(p.func, [Obj('Parser'), prod_record(p, values)], {}, Env())
             except Raised as r:
@@ -154,6 +155,11 @@ def check_operator_actions(ctx, g, d):
             ok = isinstance(res, Obj) and it.is_instance(res, ['Operation']) and isinstance(args, (list, tuple)) and len(args) == len(operands) \
                 and all(a is b for a, b in zip(args, operands)) and not any(res is o for o in operands) and (
                     str(res.attrs.get('op', '')).lower() == optext.lower() or (k[0] == 'between' and res.kind == 'BetweenOperation' and str(res.attrs.get('op', 'between')).lower() == 'between'))
+            changed = [i for i, (o, b) in enumerate(zip(operands, before)) if o != b]
+            ctx.ob('C03.operator-action', label + ':operands-untouched', not changed,
+                   f'{d}: the action of `{p}` on operands {v} changes operand {changed} itself (before {[repr(before[i])[:70] for i in changed]}, after '
+                   f'{[repr(operands[i])[:70] for i in changed]}): the parentheses the user wrote around an operand (or its operator) are part of the grouping - '
+                   f'`a - (b - c)` without the mark prints and re-groups as `(a - b) - c`', file=g.file, line=p.line, witness='select a - (b - c)')
             ctx.ob('C03.operator-action', label, ok,
                    f'{d}: the action of `{p}` on operands {v} builds {res!r:.120}; it must build the operation `{optext}` over exactly its operands (each written operator '
                    f'is one node of the tree, whatever the operands are): evaluating the tree otherwise differs from evaluating the text',
